@@ -127,7 +127,10 @@ def gen(rng, count):
             sw = dict(gap=rng.choice([0.0, -1.0, 0.03]), use_csr=rng.choice([0, 1]), s=rng.choice([0.0, 3.5e7]),
                       xi=rng.choice([0.0, -2.0]), coll=rng.choice([0.0, 0.005, 0.5]))
             rec["sw"] = sw
-            ex = [fmax, f32(R), f0, f32(sw["gap"]), float(sw["use_csr"]), f32(sw["s"]), f32(sw["xi"]), f32(sw["coll"])]
+            # an impedance file as a further (or the only) contribution: fewer, as many or more rows than samples
+            rows = rng.choice([0, 0, max(1, n // 3), n, n + 5])
+            sw["file_rows"] = rows
+            ex = [fmax, f32(R), f0, f32(sw["gap"]), float(sw["use_csr"]), f32(sw["s"]), f32(sw["xi"]), f32(sw["coll"]), float(rows)]
             # the components the factory must sum (same constructor arguments as in makeImpedance)
             f0b = f32(C_LIGHT / (2 * math.pi * float(f32(R))))
             comps = []
@@ -164,13 +167,13 @@ def oracle(rec, A):
     lines = A.get(rec["id"], [])
     n, model = rec["n"], rec["model"]
     if any(l.startswith("txt none") for l in lines):
-        if model == "factory" and not rec["comps"]:
+        if model == "factory" and not rec["comps"] and not rec["sw"].get("file_rows"):
             return None
         return "factory returned no impedance although %r is selected" % (rec.get("comps"),)
     ints, z = table(lines)
     if z is None:
         return "no table"
-    if model == "factory" and not rec["comps"]:
+    if model == "factory" and not rec["comps"] and not rec["sw"].get("file_rows"):
         return "factory returned an impedance although nothing is selected (%r)" % rec["sw"]
     if ints != [n, n] or len(z) != n:
         return "%s: %s samples returned, %d requested" % (model, ints, n)
@@ -181,6 +184,8 @@ def oracle(rec, A):
         if v.real < 0:
             return "%s (n=%d): sample %d has negative real part %r" % (model, n, i, v.real)
         upper = i >= n // 2 if model in ("const", "coll") else i > n // 2
+        if model == "factory" and rec["sw"].get("file_rows"):
+            upper = False       # a table read from a file is user data: it may fill every sample it has rows for
         if upper and (v.real != 0 or v.imag != 0):
             return "%s (n=%d): sample %d above half the length is %r, not zero" % (model, n, i, v)
     if model == "free" and n >= 8:
@@ -220,6 +225,9 @@ def oracle(rec, A):
     if model == "factory":
         tot = [complex(0, 0)] * n
         mag = [0.0] * n
+        for i in range(min(n, rec["sw"].get("file_rows", 0))):
+            tot[i] += complex(1.0 + 0.25 * i, -0.5 * i)
+            mag[i] += abs(tot[i])
         for j in range(len(rec["comps"])):
             _, zc = table(A.get("%s_c%d" % (rec["id"], j), []))
             if zc is None or len(zc) != n:
